@@ -1,6 +1,7 @@
 //! C04: on the syntax shared with the regex crate the whole API agrees with it.
 
 use crate::common::*;
+use crate::counts;
 use crate::engine::{self, CompileFail, Out};
 use crate::kf;
 use crate::refsweep::weight;
@@ -248,14 +249,19 @@ pub fn run_c04(cx: &Ctx) -> i32 {
         });
         t
     });
-    let t = Tally::merge_all(tallies);
+    let mut t = Tally::merge_all(tallies);
+    let (dense, top) = if cx.quick() { (1100, 70_000) } else { (4200, 300_000) };
+    let t4 = counts::sweep(counts::Which::C04, dense, top);
+    t.count("large_count_sweep_programs", t4.programs);
+    t.count("large_count_sweep_evaluations", t4.evaluations);
+    t.merge(t4);
     finish(
         cx,
         t,
         Finish {
             rule: format!(
-                "every common-syntax pattern of {} (classes, anchors, \\b \\B, groups numbered and named, greedy/lazy quantifiers, inline flag directives as atoms at any position) x flag prefixes {:?} x every text over {:?} up to length {}; oracle: regex::Regex built from the identical string; compared value by value: captures_len, capture_names, is_match, find_from_pos and captures_from_pos at every offset, find_iter, captures_iter, split, splitn(0..3), replacen(0..3; quick tier 0..2 and the first four templates) with templates {:?}, a closure and NoExpand (including Cow borrowed-ness); patterns the regex crate rejects are skipped; non-trivial = (pattern,text) with at least one match",
-                space.describe(), prefixes, alphabet, max_len, TEMPLATES
+                "every common-syntax pattern of {} (classes, anchors, \\b \\B, groups numbered and named, greedy/lazy quantifiers, inline flag directives as atoms at any position) x flag prefixes {:?} x every text over {:?} up to length {}; oracle: regex::Regex built from the identical string; compared value by value: captures_len, capture_names, is_match, find_from_pos and captures_from_pos at every offset, find_iter, captures_iter, split, splitn(0..3), replacen(0..3; quick tier 0..2 and the first four templates) with templates {:?}, a closure and NoExpand (including Cow borrowed-ness); patterns the regex crate rejects are skipped; non-trivial = (pattern,text) with at least one match; plus a {}",
+                space.describe(), prefixes, alphabet, max_len, TEMPLATES, counts::describe(counts::Which::C04, dense, top)
             ),
             exhaustive: true,
             bounds: jobj! {"space" => space.describe(), "max_text_len" => max_len, "node_bound" => k},
